@@ -81,3 +81,37 @@ def pos_coef(a, xm, n, size, K):
 
 def arglist(a, n):
     return ', '.join(a % k for k in range(n))
+
+
+def absall(cls, nin, nout, comps, gid, idx):
+    """components of an abstract operator's output: uninterpreted functions of (input components, grid id, index)"""
+    assert len(comps) == nin, (cls, nin, comps)
+    return ['__CPROVER_uninterpreted_%s_%d_%d(%s, %s, %s)' % (cls, nin, k, ', '.join(comps), gid, idx) for k in range(nout)]
+
+
+def comps(fmt, n):
+    return [fmt % i for i in range(n)]
+
+
+def int1(a, n, h):
+    """integral over [-h, h] of the polynomial with n coefficients a:  sum_{i even} a_i * 2 h^(i+1) / (i+1)"""
+    return _sum(['%s * 2 * %s / %d' % (a % i, power('(' + h + ')', i + 1), i + 1) for i in range(0, n, 2)])
+
+
+def int2(a, b, na, nb, h):
+    """integral over [-h, h] of the product of two polynomials: sum_{i+j even} a_i b_j * 2 h^(i+j+1) / (i+j+1)"""
+    return _sum(['%s * %s * 2 * %s / %d' % (a % i, b % j, power('(' + h + ')', i + j + 1), i + j + 1)
+                 for i in range(na) for j in range(nb) if (i + j) % 2 == 0])
+
+
+def unroll(fmt, n):
+    """conjunction of fmt (one %d) for 0..n-1"""
+    return '(' + ' && '.join(fmt.replace('%d', str(k)) for k in range(n)) + ')'
+
+
+def allk(bound, body):
+    """for all k < bound: body(k) -- quantified in the general case, written out for k = 0..7 in the small instance
+    (BS_CAP <= 16); body is a format string with {k} for the index"""
+    q = '__CPROVER_forall { size_t bs_k; (bs_k < BS_CAP && bs_k < (%s)) ==> (%s) }' % (bound, body.replace('{k}', 'bs_k'))
+    u = ' && '.join('(!(%d < (%s)) || (%s))' % (k, bound, body.replace('{k}', str(k))) for k in range(8))
+    return '(BS_CAP > 16 ? (%s) : (%s))' % (q, u)
